@@ -164,6 +164,40 @@ func init() {
 		}
 		return out
 	})
+	// chains of decided conditionals: Less_w(c?c, Less_g(c?c, X_a, k), k) and mirrored — the folder
+	// resolves both conditions and has to adjust the non-constant X from width a through g to w
+	// (narrow-then-widen keeps the cut); X = binary, memory load, undecided conditional
+	addSpace("condchain", func() []expr.Expr {
+		r1, r2 := expr.NewRegLoad("r1", 4), expr.NewRegLoad("r2", 4)
+		var out []expr.Expr
+		ws := []expr.Width{1, 2, 3, 4}
+		conds := [][2]expr.Expr{{ir.ConstU(1, 1), ir.ConstU(2, 1)}, {ir.ConstU(2, 1), ir.ConstU(1, 1)}, {ir.ConstU(0x0100, 2), ir.ConstU(1, 1)}}
+		for _, a := range ws {
+			xs := []expr.Expr{
+				expr.NewBinary(expr.Add, r1, r2, a),
+				expr.NewMemLoad("mem", r1, a),
+				expr.NewLess(r1, r2, r2, ir.ConstU(0x0807, 2), a),
+				exprtools.NewWidthGadget(expr.NewBinary(expr.Mul, r1, r2, 4), a),
+			}
+			for _, x := range xs {
+				for _, g := range ws {
+					for _, w := range ws {
+						for _, ci := range conds {
+							for _, co := range conds {
+								k := ir.ConstU(0xa5, 1)
+								inT := expr.NewLess(ci[0], ci[1], x, k, g)
+								inF := expr.NewLess(ci[0], ci[1], k, x, g)
+								out = append(out,
+									expr.NewLess(co[0], co[1], inT, k, w), expr.NewLess(co[0], co[1], k, inF, w),
+									expr.NewBinary(expr.Add, inT, ir.ConstU(1, 1), w))
+							}
+						}
+					}
+				}
+			}
+		}
+		return out
+	})
 	// constants only: everything must fold to one constant
 	addSpace("const2", func() []expr.Expr {
 		cl := []expr.Expr{ir.ConstU(0, 1), ir.ConstU(3, 1), ir.ConstU(0xff, 1), ir.ConstU(0x0100, 2), ir.ConstU(0xfffe, 2), ir.ConstU(0x010203, 3)}
@@ -194,9 +228,9 @@ func (t treeRef) expr() expr.Expr { return spaces[t.Space].get()[t.Index] }
 
 func treeSpacesFor(r *eng.Run) []string {
 	if r.Quick() {
-		return []string{"leaf", "t1", "t2", "gadget", "wide", "const2"}
+		return []string{"leaf", "t1", "t2", "gadget", "condchain", "wide", "const2"}
 	}
-	return []string{"leaf", "t1", "t2", "t3tiny", "gadget", "wide", "const2"}
+	return []string{"leaf", "t1", "t2", "t3tiny", "gadget", "condchain", "wide", "const2"}
 }
 
 // forTrees runs f on every tree of the tier's spaces, in parallel.
